@@ -27,7 +27,8 @@ EXPECTED_PROBES = ['reset_after_ready', 'limit_capped_by_max_wait',
 
 OUTCOMES = ['gaierror', 'refused', 'request_fail', 'rejected',
             'drop_before_ready', 'drop_after_ready', 'graceful',
-            'protocol_error', 'ping_timeout']
+            'protocol_error', 'ping_timeout', 'graceful_then_rst',
+            'client_closes_then_rst']
 WAITS = [(0, 0), (0, 1), (5, 30), (1, 1), (0.5, 1000), (3, 3.5), (0, 30),
          (2, 70)]
 ONE = 1.0 - 2.0 ** -53
@@ -60,7 +61,8 @@ def make_case(family, i, rng, tier):
                 else rng.choice(OUTCOMES)
         elif mode == 'mostly_ready':
             o = rng.choice(['drop_after_ready', 'graceful', 'protocol_error',
-                            'ping_timeout', 'refused'])
+                            'ping_timeout', 'refused', 'graceful_then_rst',
+                            'client_closes_then_rst'])
         else:
             o = rng.choice(OUTCOMES)
         outs.append(o)
@@ -72,6 +74,8 @@ def make_case(family, i, rng, tier):
             'ping_timeout': rng.choice([None, 4, 9]),
             'draws': draws,
             'stop_at': rng.choice([None, None, 0, 1, rng.randrange(0, n)]),
+            # every argument of persist() by position, in the documented order
+            'positional': rng.random() < 0.3,
             'app_sends': rng.random() < 0.4,
             # close() from the Connecting handler of one attempt: that attempt
             # fails, persist() must carry on
@@ -102,6 +106,21 @@ def _conn(outcome, k, case):
         return {'server': hs + [S.send(fr), S.send(peer.enc_frame(
             8, peer.enc_close_payload(1000, 'bye')), after=700000),
             {'op': 'await_close', 'timeout': 3000000}, S.eof()]}
+    if outcome == 'graceful_then_rst':
+        # the closing handshake completes, then the server aborts the TCP
+        # connection (RST) instead of closing it
+        return {'server': hs + [S.send(fr), S.send(peer.enc_frame(
+            8, peer.enc_close_payload(1000, 'bye')), after=700000),
+            {'op': 'await_close', 'timeout': 3000000},
+            S.rst(after=[0, 150001, 600001][k % 3])]}
+    if outcome == 'client_closes_then_rst':
+        # (the application closes at the first Text, see build)
+        return {'server': hs + [S.send(fr),
+                                {'op': 'await_close', 'timeout': 3000000},
+                                S.send(peer.enc_frame(
+                                    8, peer.enc_close_payload(1000, 'ok'))),
+                                S.rst(after=[0, 150001, 600001][k % 3])],
+                }
     if outcome == 'protocol_error':
         return {'server': hs + [S.send(fr), S.send(peer.enc_frame(6, b'x')),
                                 S.eof(after=1000)]}
@@ -124,6 +143,11 @@ def build(case):
             {'op': 'send_text', 'text': u'reply'}]},
             {'when': {'name': 'back_off'}, 'do': [
                 {'op': 'send_text', 'text': u'while down'}]}]
+    for k, o in enumerate(outs):
+        if o == 'client_closes_then_rst':
+            app.append({'when': {'name': 'text', 'attempt': k, 'nth': 0},
+                        'do': [{'op': 'close', 'code': 1000,
+                                'reason': 'done'}]})
     if case.get('close_on_connecting') is not None:
         app.append({'when': {'name': 'connecting',
                              'attempt': case['close_on_connecting']},
@@ -133,7 +157,8 @@ def build(case):
                         'max_wait': case['max_wait'],
                         'ping_rate': case['ping_rate'],
                         'ping_timeout': case['ping_timeout'],
-                        'stop_at': stop_at},
+                        'stop_at': stop_at,
+                        'positional': bool(case.get('positional'))},
             'random': case['draws'], 'conns': conns, 'app': app,
             'max_polls': 50000, 'max_events': 50000}, stop_at
 
